@@ -11,15 +11,14 @@ def main():
         job = json.load(f)
     from . import core, fe, world
     world.setup_frontend()
-    from .props.c09 import GRID, same_result
+    from .props.c09 import GRID, same_result, expand_db
     from .prop import V
-    from toolkit.database_utils import convert_database_keyword_to_bytes
     plan, sid = job["plan"], job["sid"]
     knobs = plan["knobs"]
     scheme = knobs["scheme"]
     run = fe.Run(job["seed"], dict(knobs, gc_every=0), wipe=False)
     viol, obs = [], []
-    db = convert_database_keyword_to_bytes(knobs["db"])
+    db = expand_db(knobs["db"])
 
     async def drive():
         run.boot_server()
